@@ -45,7 +45,9 @@ mutual
 `resolve_first_label`): every `brk l` / `tryS l` is inside a construct labelled `l`; for every
 `cont l` the innermost enclosing construct labelled `l` is a loop; and label resolution never
 passes a `defer` boundary (`ScopeKind::Defer`): inside a deferred body every jump targets a
-loop / labelled block INSIDE that body, so resolution starts afresh there. (A `tryS l` inside
+loop / labelled block INSIDE that body, so resolution starts afresh there. The condition block
+of a `loopC` is inside its loop: its jumps may name the loop's label and the enclosing labels,
+as those of the body. (A `tryS l` inside
 a deferred body that targets a label inside the body is accepted here although Capy cannot
 write it: the predicate is a superset of what HIR accepts.) -/
 def wellScopedStmt : Stmt → Ctx → Bool
@@ -53,6 +55,8 @@ def wellScopedStmt : Stmt → Ctx → Bool
   | .defer b, _ => wellScoped b []
   | .block label body, ctx => wellScoped body (pushLabel label ctx)
   | .loop label body, ctx => wellScoped body ((label, true) :: ctx)
+  | .loopC label cond body, ctx =>
+    wellScoped cond ((label, true) :: ctx) && wellScoped body ((label, true) :: ctx)
   | .ifS body, ctx => wellScoped body ctx
   | .brk l, ctx => (lookupLabel l ctx).isSome
   | .cont l, ctx => lookupLabel l ctx == some true
@@ -71,6 +75,8 @@ def contScopedStmt : Stmt → Ctx → Bool
   | .defer b, _ => wellScoped b []
   | .block label body, ctx => contScoped body (pushLabel label ctx)
   | .loop label body, ctx => contScoped body ((label, true) :: ctx)
+  | .loopC label cond body, ctx =>
+    contScoped cond ((label, true) :: ctx) && contScoped body ((label, true) :: ctx)
   | .ifS body, ctx => contScoped body ctx
   | .brk _, _ => true
   | .cont l, ctx => lookupLabel l ctx != some false
@@ -90,6 +96,10 @@ theorem wellScopedStmt_contScoped : (s : Stmt) → ∀ ctx, wellScopedStmt s ctx
   | .loop label body => by
     intro ctx h; simp only [wellScopedStmt] at h; simp only [contScopedStmt]
     exact wellScoped_contScoped body _ h
+  | .loopC label cond body => by
+    intro ctx h; simp only [wellScopedStmt, Bool.and_eq_true] at h
+    simp only [contScopedStmt, Bool.and_eq_true]
+    exact ⟨wellScoped_contScoped cond _ h.1, wellScoped_contScoped body _ h.2⟩
   | .ifS body => by
     intro ctx h; simp only [wellScopedStmt] at h; simp only [contScopedStmt]
     exact wellScoped_contScoped body _ h
@@ -136,6 +146,114 @@ theorem runRegs_append (a b : List Reg) (st : St) :
     runRegs (a ++ b) st = runRegs b (runRegs a st) := by
   simp [runRegs, List.foldl_append]
 
+/-! ### `loopC`: the condition block and one iteration, named -/
+
+/-- the condition block of a `loopC` in the structural semantics: a block activation whose
+tail expression is a decision (drawn before the block's deferred bodies run). The decision is
+reported as `false` when the block is left by a jump. -/
+def condS (fuel : Nat) (cond : Stmts) (st : St) : Sig × Bool × St :=
+  match execStmtsS fuel cond [] st with
+  | (.normal, cregs, st0) => (.normal, st0.decide.1, runRegs cregs st0.decide.2)
+  | (sig, cregs, st0) => (sig, false, runRegs cregs st0)
+
+/-- one iteration of a `loopC`: `c` runs the condition block, `b` the body block -/
+def loopCStep (label : Nat) (c : St → Sig × Bool × St) (b : St → Sig × St) : St → Option Sig × St :=
+  fun st =>
+    match c st with
+    | (.normal, false, st1) => (some .normal, st1)
+    | (.normal, true, st1) => loopNext label (b st1)
+    | (sig, _, st1) => loopNext label (sig, st1)
+
+theorem condS_sig (fuel : Nat) (cond : Stmts) (st : St) :
+    (condS fuel cond st).1 = (execStmtsS fuel cond [] st).1 := by
+  simp only [condS]
+  rcases execStmtsS fuel cond [] st with ⟨sig, cregs, st0⟩
+  cases sig <;> rfl
+
+theorem iter_congr {f g : St → Option Sig × St} (h : ∀ st, f st = g st) (n : Nat) (st : St) :
+    iter f n st = iter g n st := by
+  have : f = g := funext h
+  rw [this]
+
+theorem execS_loopC (fuel label : Nat) (cond body : Stmts) (regs : List Reg) (st : St) :
+    execS fuel (.loopC label cond body) regs st =
+      ((iter (loopCStep label (condS fuel cond) (execBlockS fuel body)) fuel st).1, regs,
+        (iter (loopCStep label (condS fuel cond) (execBlockS fuel body)) fuel st).2) := by
+  rw [execS, iter_congr (g := loopCStep label (condS fuel cond) (execBlockS fuel body))]
+  intro st0
+  simp only [loopCStep, condS]
+  rcases execStmtsS fuel cond [] st0 with ⟨sig, cregs, st1⟩
+  cases sig with
+  | normal =>
+    simp only
+    rcases st1.decide with ⟨d, st2⟩
+    cases d
+    · rfl
+    · simp only
+      rcases execBlockS fuel body (runRegs cregs st2) with ⟨sigB, st'⟩
+      cases sigB <;> rfl
+  | brk l => rfl
+  | cont l => rfl
+
+/-- what leaves a loop: `normal`, or a jump of an activation inside it that is not aimed at
+the loop -/
+theorem loopNext_some {label : Nat} {sig sig' : Sig} {st st' : St}
+    (h : loopNext label (sig, st) = (some sig', st')) :
+    sig' = .normal ∨ (sig' = sig ∧ ∀ l, (sig = .brk l ∨ sig = .cont l) → l ≠ label) := by
+  cases sig with
+  | normal => simp [loopNext] at h
+  | brk l =>
+    simp only [loopNext] at h
+    split at h
+    · simp only [Prod.mk.injEq, Option.some.injEq] at h; exact .inl h.1.symm
+    · rename_i hne
+      simp only [Prod.mk.injEq, Option.some.injEq] at h
+      refine .inr ⟨h.1.symm, ?_⟩
+      intro l' hl'
+      rcases hl' with e | e
+      · cases e; exact hne
+      · cases e
+  | cont l =>
+    simp only [loopNext] at h
+    split at h
+    · simp at h
+    · rename_i hne
+      simp only [Prod.mk.injEq, Option.some.injEq] at h
+      refine .inr ⟨h.1.symm, ?_⟩
+      intro l' hl'
+      rcases hl' with e | e
+      · cases e
+      · cases e; exact hne
+
+theorem loopCStep_some {label : Nat} {c : St → Sig × Bool × St} {b : St → Sig × St} {st st' : St}
+    {sig' : Sig} (h : loopCStep label c b st = (some sig', st')) :
+    sig' = .normal ∨ ∃ sig, (sig = (c st).1 ∨ ∃ st1, sig = (b st1).1) ∧ sig' = sig ∧
+      ∀ l, (sig = .brk l ∨ sig = .cont l) → l ≠ label := by
+  simp only [loopCStep] at h
+  rcases hc : c st with ⟨sigC, d, st1⟩
+  rw [hc] at h
+  cases sigC with
+  | normal =>
+    cases d with
+    | false => simp only [Prod.mk.injEq, Option.some.injEq] at h; exact .inl h.1.symm
+    | true =>
+      simp only at h
+      rcases hb : b st1 with ⟨sigB, stB⟩
+      rw [hb] at h
+      rcases loopNext_some h with h' | ⟨h1, h2⟩
+      · exact .inl h'
+      · exact .inr ⟨sigB, .inr ⟨st1, by rw [hb]⟩, h1, h2⟩
+  | brk l =>
+    simp only at h
+    rcases loopNext_some h with h' | ⟨h1, h2⟩
+    · exact .inl h'
+    · exact .inr ⟨.brk l, .inl rfl, h1, h2⟩
+  | cont l =>
+    simp only at h
+    rcases loopNext_some h with h' | ⟨h1, h2⟩
+    · exact .inl h'
+    · exact .inr ⟨.cont l, .inl rfl, h1, h2⟩
+
 /-- a property of signals that holds of `normal` and of whatever a step leaves the loop with
 holds of the loop's signal -/
 theorem iter_sig_ind {P : Sig → Prop} (step : St → Option Sig × St) (h0 : P .normal)
@@ -154,6 +272,19 @@ def Esc (ctx : Ctx) : Sig → Prop
   | .normal => True
   | .brk l => (lookupLabel l ctx).isSome = true
   | .cont l => lookupLabel l ctx = some true
+
+theorem esc_leave_loop {label : Nat} {ctx : Ctx} {sig : Sig} (h : Esc ((label, true) :: ctx) sig)
+    (hne : ∀ l, (sig = .brk l ∨ sig = .cont l) → l ≠ label) : Esc ctx sig := by
+  cases sig with
+  | normal => trivial
+  | brk l =>
+    have := hne l (.inl rfl)
+    simp only [Esc, lookupLabel] at h ⊢
+    rwa [if_neg (fun e => this e.symm)] at h
+  | cont l =>
+    have := hne l (.inr rfl)
+    simp only [Esc, lookupLabel] at h ⊢
+    rwa [if_neg (fun e => this e.symm)] at h
 
 mutual
 theorem esc_stmt (fuel : Nat) : (s : Stmt) → ∀ ctx regs st, wellScopedStmt s ctx = true →
@@ -237,6 +368,20 @@ theorem esc_stmt (fuel : Nat) : (s : Stmt) → ∀ ctx regs st, wellScopedStmt s
             rw [← hstep.1]
             simp only [Esc, lookupLabel] at ih ⊢
             rwa [if_neg (fun e => hne e.symm)] at ih
+  | .loopC label cond body => by
+    intro ctx regs st h
+    simp only [wellScopedStmt, Bool.and_eq_true] at h
+    simp only [execS_loopC]
+    apply iter_sig_ind (P := Esc ctx)
+    · simp [Esc]
+    · intro st0 sig st0' hstep
+      rcases loopCStep_some hstep with rfl | ⟨sig0, hsrc, rfl, hne⟩
+      · simp [Esc]
+      · have hin : Esc ((label, true) :: ctx) sig := by
+          rcases hsrc with e | ⟨st1, e⟩
+          · rw [e, condS_sig]; exact esc_stmts fuel cond _ [] st0 h.1
+          · rw [e, execBlockS_eq]; exact esc_stmts fuel body _ [] st1 h.2
+        exact esc_leave_loop hin hne
 theorem esc_stmts (fuel : Nat) : (ss : Stmts) → ∀ ctx regs st, wellScoped ss ctx = true →
     Esc ctx (execStmtsS fuel ss regs st).1
   | .nil => by intro ctx regs st _; simp [execStmtsS, Esc]
@@ -350,6 +495,24 @@ theorem cont_escape_stmt (fuel : Nat) : (s : Stmt) → ∀ ctx regs st l, contSc
             simp only [lookupLabel] at ih
             rw [if_neg (by rw [← hstep.1]; exact fun e => hne e.symm)] at ih
             exact ih
+  | .loopC label cond body => by
+    intro ctx regs st l hw h
+    simp only [contScopedStmt, Bool.and_eq_true] at hw
+    simp only [execS_loopC] at h
+    revert h
+    apply iter_sig_ind (P := fun sig => sig = .cont l → lookupLabel l ctx ≠ some false)
+    · intro h; simp at h
+    · intro st0 sig st0' hstep hsig
+      subst hsig
+      rcases loopCStep_some hstep with h' | ⟨sig0, hsrc, rfl, hne⟩
+      · simp at h'
+      · have hl := hne l (.inr rfl)
+        have hin : lookupLabel l ((label, true) :: ctx) ≠ some false := by
+          rcases hsrc with e | ⟨st1, e⟩
+          · rw [condS_sig] at e; exact cont_escape_stmts fuel cond _ [] st0 l hw.1 e.symm
+          · rw [execBlockS_eq] at e; exact cont_escape_stmts fuel body _ [] st1 l hw.2 e.symm
+        simp only [lookupLabel] at hin
+        rwa [if_neg (fun e => hl e.symm)] at hin
 theorem cont_escape_stmts (fuel : Nat) : (ss : Stmts) → ∀ ctx regs st l, contScoped ss ctx = true →
     (execStmtsS fuel ss regs st).1 = .cont l → lookupLabel l ctx ≠ some false
   | .nil => by intro ctx regs st l _ h; simp [execStmtsS] at h
@@ -627,11 +790,6 @@ def loopStepT (fuel label : Nat) (tb ex : Ts) : St → Option Sig × St := fun s
   | (false, st1) => (some .normal, st1)
   | (true, st1) => loopNext label (blockT fuel tb ex st1)
 
-theorem iter_congr {f g : St → Option Sig × St} (h : ∀ st, f st = g st) (n : Nat) (st : St) :
-    iter f n st = iter g n st := by
-  have : f = g := funext h
-  rw [this]
-
 theorem execS_loop (fuel label : Nat) (body : Stmts) (regs : List Reg) (st : St) :
     execS fuel (.loop label body) regs st =
       ((iter (loopStepS fuel label body) fuel st).1, regs, (iter (loopStepS fuel label body) fuel st).2) := by
@@ -695,6 +853,150 @@ theorem loop_step_sim (fuel label : Nat) (body : Stmts) (tb ex : Ts) (rfr : List
       · subst hl; simp at h2; subst h2; simp [StepDebt, loopNext]
       · have hl' : ¬ label = l := fun e => hl e.symm
         simp [hl'] at h2; subst h2; simp [StepDebt, Debt, loopNext, hl]
+
+/-! ### loops whose condition is a block -/
+
+/-- the condition block of a `loopC` in the generated code: the condition's statements, the
+decision, then the exit block (the condition block's defers) -/
+def condT (fuel : Nat) (tc exc : Ts) (st : St) : Sig × Bool × St :=
+  match execTs fuel tc st with
+  | (.normal, st0) =>
+    ((execTs fuel exc st0.decide.2).1, st0.decide.1, (execTs fuel exc st0.decide.2).2)
+  | (sig, st0) => (sig, false, st0)
+
+theorem execT_loopC (fuel label : Nat) (tc exc tb ex : Ts) (st : St) :
+    execT fuel (.loopC label tc exc tb ex) st =
+      iter (loopCStep label (condT fuel tc exc) (blockT fuel tb ex)) fuel st := by
+  rw [execT, iter_congr (g := loopCStep label (condT fuel tc exc) (blockT fuel tb ex))]
+  intro st0
+  simp only [loopCStep, condT, blockT]
+  rcases execTs fuel tc st0 with ⟨sig, st1⟩
+  cases sig with
+  | normal =>
+    simp only
+    rcases st1.decide with ⟨d, st2⟩
+    simp only
+    rcases execTs fuel exc st2 with ⟨sigE, st3⟩
+    cases sigE with
+    | normal =>
+      cases d
+      · rfl
+      · simp only [if_true]
+        rcases execTs fuel tb st3 with ⟨sigB, st'⟩
+        cases sigB <;> rfl
+    | brk l => cases d <;> rfl
+    | cont l => cases d <;> rfl
+  | brk l => rfl
+  | cont l => rfl
+
+/-- The condition block of a `loopC` against its code, given the simulation of its statement
+list: same signal, same decision; after a jump the code has additionally run what the
+activations below will run. -/
+theorem cond_sim (fuel : Nat) (emit : Emit) (hE : EmitOK fuel emit) (cond : Stmts)
+    (label : Option Nat) (below : List Frame) (tc exc : Ts) (st : St) (hF : FramesClosed below)
+    (hcl : closeBlock emit (compileStmts emit cond ((label, []) :: below)) = some (tc, exc))
+    (ih : ∀ tb frb stopb, compileStmts emit cond ((label, []) :: below) = some (tb, frb, stopb) →
+      SimRes label (below.map (toR fuel)) (execStmtsS fuel cond [] st) (execTs fuel tb st) ∧
+      ((execStmtsS fuel cond [] st).1 = .normal → ∃ ds', frb = (label, ds') :: below ∧
+        (execStmtsS fuel cond [] st).2.1 = ds'.map (runner fuel) ∧ (∀ b ∈ ds', Closed b) ∧
+        stopb = false)) :
+    (condT fuel tc exc st).1 = (condS fuel cond st).1 ∧
+      (condT fuel tc exc st).2.1 = (condS fuel cond st).2.1 ∧
+      Debt ((label, []) :: below.map (toR fuel)) (condS fuel cond st).1
+        (condS fuel cond st).2.2 (condT fuel tc exc st).2.2 := by
+  rcases hcb : compileStmts emit cond ((label, []) :: below) with _ | ⟨tb0, frb, stopb⟩
+  · rw [hcb] at hcl; simp [closeBlock] at hcl
+  rw [hcb] at hcl
+  obtain ⟨⟨h1, h2⟩, h3⟩ := ih tb0 frb stopb hcb
+  have htb : tb0 = tc := closeBlock_fst hcl
+  subst htb
+  simp only [condT, condS]
+  rcases hb : execStmtsS fuel cond [] st with ⟨sigB, regsB, stB⟩
+  rcases hT : execTs fuel tb0 st with ⟨sigT, stT⟩
+  rw [hb, hT] at h1 h2
+  rw [hb] at h3
+  simp only at h1 h2 h3
+  subst h1
+  cases sigT with
+  | normal =>
+    obtain ⟨ds', rfl, hregs, hcl', rfl⟩ := h3 rfl
+    simp only [Debt] at h2
+    subst h2
+    simp only [closeBlock, Bool.false_eq_true, if_false] at hcl
+    rcases he : emitDefers emit ds' below with _ | ex0
+    · rw [he] at hcl; simp at hcl
+    rw [he] at hcl
+    simp only [Option.some.injEq, Prod.mk.injEq, true_and] at hcl
+    subst hcl
+    simp only
+    rw [emitDefers_ok fuel emit hE below hF ds' ex0 _ hcl' he, hregs]
+    simp [Debt]
+  | brk l =>
+    simp only [Debt, unwindS] at h2 ⊢
+    simp [h2]
+  | cont l =>
+    simp only [Debt, unwindS] at h2 ⊢
+    simp [h2]
+
+/-- what a loop does with a signal that arrives from an activation directly inside it
+(condition block or body block), source against code -/
+theorem loopNext_sim (label : Nat) (rfr : List RFrame) (sig : Sig) (s t : St)
+    (h : Debt ((none, []) :: (some label, []) :: rfr) sig s t) :
+    (loopNext label (sig, t)).1 = (loopNext label (sig, s)).1 ∧
+      StepDebt rfr (loopNext label (sig, s)).1 (loopNext label (sig, s)).2 (loopNext label (sig, t)).2 := by
+  cases sig with
+  | normal =>
+    simp only [Debt] at h; subst h
+    simp [StepDebt, loopNext]
+  | brk l =>
+    simp only [Debt, unwindS, runRegs_nil] at h
+    by_cases hl : l = label
+    · subst hl; simp at h; subst h; simp [StepDebt, Debt, loopNext]
+    · have hl' : ¬ label = l := fun e => hl e.symm
+      simp [hl'] at h; subst h; simp [StepDebt, Debt, loopNext, hl]
+  | cont l =>
+    simp only [Debt, unwindS, runRegs_nil] at h
+    by_cases hl : l = label
+    · subst hl; simp at h; subst h; simp [StepDebt, loopNext]
+    · have hl' : ¬ label = l := fun e => hl e.symm
+      simp [hl'] at h; subst h; simp [StepDebt, Debt, loopNext, hl]
+
+/-- the step relation of a `loopC`, from the simulations of its condition block and body block -/
+theorem loopC_step_sim (label : Nat) (cS cT : St → Sig × Bool × St) (bS bT : St → Sig × St)
+    (rfr : List RFrame)
+    (hc : ∀ st, (cT st).1 = (cS st).1 ∧ (cT st).2.1 = (cS st).2.1 ∧
+      Debt ((none, []) :: (some label, []) :: rfr) (cS st).1 (cS st).2.2 (cT st).2.2)
+    (hb : ∀ st, (bT st).1 = (bS st).1 ∧
+      Debt ((none, []) :: (some label, []) :: rfr) (bS st).1 (bS st).2 (bT st).2) :
+    ∀ st, (loopCStep label cT bT st).1 = (loopCStep label cS bS st).1 ∧
+      StepDebt rfr (loopCStep label cS bS st).1 (loopCStep label cS bS st).2
+        (loopCStep label cT bT st).2 := by
+  intro st
+  simp only [loopCStep]
+  have hcs := hc st
+  rcases hS : cS st with ⟨sigS, dS, sS⟩
+  rcases hT : cT st with ⟨sigT, dT, sT⟩
+  rw [hS, hT] at hcs
+  obtain ⟨h1, h2, h3⟩ := hcs
+  simp only at h1 h2 h3
+  subst h1 h2
+  cases sigT with
+  | normal =>
+    simp only [Debt] at h3; subst h3
+    cases dT with
+    | false => simp [StepDebt, Debt]
+    | true =>
+      simp only
+      have hbs := hb sT
+      rcases hbS : bS sT with ⟨sigB, sB⟩
+      rcases hbT : bT sT with ⟨sigB', sB'⟩
+      rw [hbS, hbT] at hbs
+      obtain ⟨e1, e2⟩ := hbs
+      simp only at e1 e2
+      subst e1
+      exact loopNext_sim label rfr sigB' sB sB' e2
+  | brk l => exact loopNext_sim label rfr (.brk l) sS sT h3
+  | cont l => exact loopNext_sim label rfr (.cont l) sS sT h3
 
 /-! ### the simulation -/
 
@@ -874,6 +1176,36 @@ theorem sim_stmt (fuel : Nat) (emit : Emit) (hE : EmitOK fuel emit) : (s : Stmt)
     have key := iter_sim (((id, ds) :: rest).map (toR fuel)) _ _
       (loop_step_sim fuel label body tb ex _ hbody) fuel st
     rw [execTs_single, execT_loop, execS_loop]
+    exact ⟨key, fun _ => ⟨ds, rfl, rfl, hF.head, by trivial⟩⟩
+  | .loopC label cond body => by
+    intro ctx id ds rest ts fr' stop st hw hF hc
+    simp only [contScopedStmt, Bool.and_eq_true] at hw
+    simp only [compileStmt] at hc
+    rcases hclc : closeBlock emit (compileStmts emit cond ((none, []) :: (some label, []) :: (id, ds) :: rest)) with _ | ⟨tc, exc⟩
+    · rw [hclc] at hc; simp at hc
+    rw [hclc] at hc
+    simp only at hc
+    rcases hcl : closeBlock emit (compileStmts emit body ((none, []) :: (some label, []) :: (id, ds) :: rest)) with _ | ⟨tb, ex⟩
+    · rw [hcl] at hc; simp at hc
+    rw [hcl] at hc
+    simp only [Option.some.injEq, Prod.mk.injEq] at hc
+    obtain ⟨rfl, rfl, rfl⟩ := hc
+    have hFl : FramesClosed ((some label, []) :: (id, ds) :: rest) :=
+      FramesClosed.cons (fun _ h => by simp at h) hF
+    have hFb : FramesClosed ((none, []) :: (some label, []) :: (id, ds) :: rest) :=
+      FramesClosed.cons (fun _ h => by simp at h) hFl
+    have hcond := fun st1 => cond_sim fuel emit hE cond none ((some label, []) :: (id, ds) :: rest) tc exc st1 hFl hclc
+      (fun tb' frb stopb hcb =>
+        sim_stmts fuel emit hE cond ((label, true) :: ctx) none [] ((some label, []) :: (id, ds) :: rest)
+          tb' frb stopb st1 hw.1 hFb hcb)
+    have hbody := fun st1 => body_sim fuel emit hE body none ((some label, []) :: (id, ds) :: rest) tb ex st1 hFl hcl
+      (fun tb' frb stopb hcb =>
+        sim_stmts fuel emit hE body ((label, true) :: ctx) none [] ((some label, []) :: (id, ds) :: rest)
+          tb' frb stopb st1 hw.2 hFb hcb)
+    have key := iter_sim (((id, ds) :: rest).map (toR fuel)) _ _
+      (loopC_step_sim label (condS fuel cond) (condT fuel tc exc) (execBlockS fuel body)
+        (blockT fuel tb ex) _ hcond hbody) fuel st
+    rw [execTs_single, execT_loopC, execS_loopC]
     exact ⟨key, fun _ => ⟨ds, rfl, rfl, hF.head, by trivial⟩⟩
 theorem sim_stmts (fuel : Nat) (emit : Emit) (hE : EmitOK fuel emit) : (ss : Stmts) →
     ∀ ctx id ds rest ts fr' stop st,
@@ -1164,6 +1496,36 @@ theorem tot_stmt (emit : Emit) (k : Nat) (hT : EmitTotal emit k) (X : List Frame
     obtain ⟨ex, hex⟩ := closeBlock_total emit k hT tb none ds'
       ((some label, []) :: (id, ds) :: (inner ++ X)) stopb hSb.head
     exact ⟨.cons (.loop label tb ex) .nil, ds, false, by simp only [compileStmt, hcb', hex], hS⟩
+  | .loopC label cond body => by
+    intro ctx id ds inner hw hj hS hk
+    simp only [contScopedStmt, Bool.and_eq_true] at hw
+    simp only [deferDepthStmt] at hk
+    have hjc : X = [] ∨ (wellScoped cond ((label, true) :: ctx) = true ∧
+        Covered ((label, true) :: ctx) ((none, []) :: (some label, []) :: (id, ds) :: inner)) := by
+      rcases hj with h | ⟨hws, hcov⟩
+      · exact .inl h
+      · simp only [wellScopedStmt, Bool.and_eq_true] at hws
+        exact .inr ⟨hws.1, hcov.push_loop label⟩
+    have hjb : X = [] ∨ (wellScoped body ((label, true) :: ctx) = true ∧
+        Covered ((label, true) :: ctx) ((none, []) :: (some label, []) :: (id, ds) :: inner)) := by
+      rcases hj with h | ⟨hws, hcov⟩
+      · exact .inl h
+      · simp only [wellScopedStmt, Bool.and_eq_true] at hws
+        exact .inr ⟨hws.2, hcov.push_loop label⟩
+    obtain ⟨tc, dsc, stopc, hcc, hSc⟩ := tot_stmts emit k hT X cond ((label, true) :: ctx) none []
+      ((some label, []) :: (id, ds) :: inner) hw.1 hjc ((hS.push (some label)).push none) (by omega)
+    have hcc' : compileStmts emit cond ((none, []) :: (some label, []) :: (id, ds) :: (inner ++ X)) =
+        some (tc, (none, dsc) :: (some label, []) :: (id, ds) :: (inner ++ X), stopc) := hcc
+    obtain ⟨exc, hexc⟩ := closeBlock_total emit k hT tc none dsc
+      ((some label, []) :: (id, ds) :: (inner ++ X)) stopc hSc.head
+    obtain ⟨tb, ds', stopb, hcb, hSb⟩ := tot_stmts emit k hT X body ((label, true) :: ctx) none []
+      ((some label, []) :: (id, ds) :: inner) hw.2 hjb ((hS.push (some label)).push none) (by omega)
+    have hcb' : compileStmts emit body ((none, []) :: (some label, []) :: (id, ds) :: (inner ++ X)) =
+        some (tb, (none, ds') :: (some label, []) :: (id, ds) :: (inner ++ X), stopb) := hcb
+    obtain ⟨ex, hex⟩ := closeBlock_total emit k hT tb none ds'
+      ((some label, []) :: (id, ds) :: (inner ++ X)) stopb hSb.head
+    exact ⟨.cons (.loopC label tc exc tb ex) .nil, ds, false,
+      by simp only [compileStmt, hcc', hexc, hcb', hex], hS⟩
 theorem tot_stmts (emit : Emit) (k : Nat) (hT : EmitTotal emit k) (X : List Frame) : (ss : Stmts) →
     ∀ ctx id ds inner, contScoped ss ctx = true →
     (X = [] ∨ (wellScoped ss ctx = true ∧ Covered ctx ((id, ds) :: inner))) →
@@ -1318,6 +1680,22 @@ theorem execStmtsS_regs (fuel : Nat) : (ss : Stmts) → ∀ regs st,
     | brk l => simp at h
     | cont l => simp at h
 
+/-- a statement list that runs to its end, followed by another one -/
+theorem execStmtsS_append (fuel : Nat) : (a b : Stmts) → ∀ regs st,
+    (execStmtsS fuel a regs st).1 = .normal →
+    execStmtsS fuel (a.append b) regs st =
+      execStmtsS fuel b (execStmtsS fuel a regs st).2.1 (execStmtsS fuel a regs st).2.2
+  | .nil, b => by intro regs st _; simp [Stmts.append, execStmtsS]
+  | .cons s r, b => by
+    intro regs st h
+    simp only [Stmts.append, execStmtsS] at h ⊢
+    rcases hs : execS fuel s regs st with ⟨sig1, regs1, st1⟩
+    rw [hs] at h
+    cases sig1 with
+    | normal => exact execStmtsS_append fuel r b regs1 st1 h
+    | brk l => simp at h
+    | cont l => simp at h
+
 /-- statements after a `brk` / `cont` never matter -/
 theorem execStmtsS_dead (fuel : Nat) (j : Stmt) (hj : (∃ l, j = .brk l) ∨ (∃ l, j = .cont l)) :
     (pre : Stmts) → ∀ post regs st,
@@ -1376,6 +1754,13 @@ def compileStmtOld (emit : Emit) : Stmt → List Frame → Option (Ts × List Fr
     match closeBlock emit (compileStmtsOld emit body ((none, []) :: fr)) with
     | none => none
     | some (tb, ex) => some (.cons (.loop label tb ex) .nil, fr, false)
+  | .loopC label cond body, fr =>
+    match closeBlock emit (compileStmtsOld emit cond ((none, []) :: fr)) with
+    | none => none
+    | some (tc, exc) =>
+      match closeBlock emit (compileStmtsOld emit body ((none, []) :: fr)) with
+      | none => none
+      | some (tb, ex) => some (.cons (.loopC label tc exc tb ex) .nil, fr, false)
   | .ifS body, fr =>
     match closeBlock emit (compileStmtsOld emit body ((none, []) :: fr)) with
     | none => none
@@ -1398,6 +1783,58 @@ end
 def runCompiledOld (fuel : Nat) (body : Stmts) (oracle : List Bool) : Option (List Nat) :=
   let emit := compileDeferred (deferDepth body)
   match closeBlock emit (compileStmtsOld emit body [(some 0, [])]) with
+  | none => none
+  | some (tb, ex) =>
+    some (execT fuel (.block (some 0) tb ex) { trace := [], oracle }).2.trace.reverse
+
+/-! ### the scheme between the two fixes (documentation of the third confirmed defect)
+Loops had a defer frame, but `Expr::While` pushed it only AFTER compiling the condition: a
+`break l` / `continue l` inside a block condition found no frame with id `l` and ran every
+frame of the function. Everything else is `compileStmt`. -/
+
+mutual
+def compileStmtMid (emit : Emit) : Stmt → List Frame → Option (Ts × List Frame × Bool)
+  | .print c, fr => some (.cons (.emit c) .nil, fr, false)
+  | .defer b, fr => (registerDefer b fr).map fun fr' => (.nil, fr', false)
+  | .block label body, fr =>
+    match closeBlock emit (compileStmtsMid emit body ((label, []) :: fr)) with
+    | none => none
+    | some (tb, ex) => some (.cons (.block label tb ex) .nil, fr, false)
+  | .loop label body, fr =>
+    match closeBlock emit (compileStmtsMid emit body ((none, []) :: (some label, []) :: fr)) with
+    | none => none
+    | some (tb, ex) => some (.cons (.loop label tb ex) .nil, fr, false)
+  | .loopC label cond body, fr =>
+    -- the condition is compiled first, under the stack of the enclosing code …
+    match closeBlock emit (compileStmtsMid emit cond ((none, []) :: fr)) with
+    | none => none
+    | some (tc, exc) =>
+      -- … and only then the loop's frame is pushed
+      match closeBlock emit (compileStmtsMid emit body ((none, []) :: (some label, []) :: fr)) with
+      | none => none
+      | some (tb, ex) => some (.cons (.loopC label tc exc tb ex) .nil, fr, false)
+  | .ifS body, fr =>
+    match closeBlock emit (compileStmtsMid emit body ((none, []) :: fr)) with
+    | none => none
+    | some (tb, ex) => some (.cons (.ifT tb ex) .nil, fr, false)
+  | .brk l, fr => (defersUpTo emit l fr).map fun code => (.cons (.jump false l code) .nil, fr, true)
+  | .cont l, fr => (defersUpTo emit l fr).map fun code => (.cons (.jump true l code) .nil, fr, true)
+  | .tryS l, fr => (defersUpTo emit l fr).map fun code => (.cons (.tryT l code) .nil, fr, false)
+def compileStmtsMid (emit : Emit) : Stmts → List Frame → Option (Ts × List Frame × Bool)
+  | .nil, fr => some (.nil, fr, false)
+  | .cons s rest, fr =>
+    match compileStmtMid emit s fr with
+    | none => none
+    | some (ts, fr', stop) =>
+      if stop then some (ts, fr', true) else
+      match compileStmtsMid emit rest fr' with
+      | none => none
+      | some (tr, fr'', stop') => some (Ts.append ts tr, fr'', stop')
+end
+
+def runCompiledMid (fuel : Nat) (body : Stmts) (oracle : List Bool) : Option (List Nat) :=
+  let emit := compileDeferred (deferDepth body)
+  match closeBlock emit (compileStmtsMid emit body [(some 0, [])]) with
   | none => none
   | some (tb, ex) =>
     some (execT fuel (.block (some 0) tb ex) { trace := [], oracle }).2.trace.reverse
